@@ -67,6 +67,17 @@ func verifControlIdx3Bad(m modeling.Mesh) int {
 	return t
 }
 
+// must fire IDX-6: the next corner taken as vertex id + 1
+func verifControlIdx6Bad(m modeling.Mesh) float64 {
+	indices := m.Indices()
+	data := m.Float1Attribute("a")
+	t := 0.
+	for i := 0; i+1 < indices.Len(); i += 2 {
+		t += data.At(indices.At(i)+1) - data.At(indices.At(i))
+	}
+	return t
+}
+
 // must fire FAM-1: float4 never enumerated
 func verifControlFamBad(m modeling.Mesh) modeling.Mesh {
 	n := 0
@@ -150,7 +161,7 @@ func run(c *props.Ctx) {
 	c.R.Floor("IDX-4", 1)
 	c.R.Floor("IDX-5", 30)
 	if len(c.P.Controls) > 0 {
-		for _, n := range []string{"verifControlIdx2Bad", "verifControlIdx1Bad", "verifControlIdx3Bad", "verifControlFamBad", "verifControlWfBad"} {
+		for _, n := range []string{"verifControlIdx2Bad", "verifControlIdx1Bad", "verifControlIdx3Bad", "verifControlIdx6Bad", "verifControlFamBad", "verifControlWfBad"} {
 			got := ob.Holds
 			if bad[n] {
 				got = ob.Violation
